@@ -39,6 +39,7 @@ type Profile struct {
 	PTopSlice  int  // % of top-level schemas that are slices
 	PTopPT     int  // % of top-level structs with PostTransforms even when PPT is 0 (their gate is deterministic)
 	PValid     int  // % of primitive leaves given a value their own schema accepts
+	PGlobal    int  // % of cases run with a global conf.Coercers override (String, Bool or Time) installed
 	NilBias    bool // whole inputs are re-drawn (up to 10 times) until the implementation reports no issues
 	Repeats    int  // how many times a case is re-run (with reshuffled schema insertion orders and varying pool states)
 }
@@ -48,7 +49,7 @@ func DefaultProfile() Profile {
 		Name: "default", MaxDepth: 3, MaxFields: 3, MaxElems: 3,
 		PCatch: 20, PDefault: 20, PRequired: 45, PTests: 60, PUserTest: 25, PPT: 15, PPTErr: 25, POpts: 20,
 		PIssuePath: 0, PTags: 30, PCustom: 5, PPre: 5, PPtr: 15, PSlice: 20, PStruct: 25,
-		PWrongType: 12, PAbsent: 18, PInvalid: 30, PCoercer: 4, PLayout: 30, PPrefill: 30, PExtra: 30,
+		PWrongType: 12, PAbsent: 18, PInvalid: 30, PCoercer: 4, PLayout: 30, PPrefill: 30, PExtra: 30, PGlobal: 3,
 		Kinds: []string{KString, KString, KInt, KInt, KInt32, KInt64, KFloat64, KFloat32, KBool, KTime},
 	}
 }
@@ -66,7 +67,7 @@ func (g *Gen) id() int { g.nextID++; return g.nextID }
 var sampleStrings = []string{"", "a", "ab", "abc", "abcd", "hello", "Hello1!", "x y", " pad ", "ABC", "a1", "user@example.com",
 	"550e8400-e29b-41d4-a716-446655440000", "http://example.com/x", "héllo", "\xff\xfe", "日本", "abc1", "12", "-7", "3.5", "true", "on", "0"}
 
-var layouts = []string{"2006-01-02", "02/01/2006 15:04", time.RFC1123}
+var layouts = []string{"2006-01-02", "02/01/2006 15:04", time.RFC1123, time.RFC3339, time.RFC3339, time.RFC3339Nano}
 
 var baseTime = time.Date(2024, 3, 10, 12, 0, 0, 0, time.UTC)
 
@@ -471,6 +472,7 @@ func ProfileByName(name string) Profile {
 		p.PWrongType = 5
 		p.PTests = 25
 		p.PCoercer = 12
+		p.PGlobal = 25
 		p.PLayout = 50
 		p.PPrefill = 50
 		p.PExtra = 60
